@@ -2,6 +2,7 @@
 import Xrfmv.Drv.Common
 import Xrfmv.Model.Grad
 import Xrfmv.Model.GradGen
+import Xrfmv.Model.FwdGen
 
 open Lean Xrfmv.Drv
 
@@ -95,7 +96,16 @@ def opFgrad : Handler := fun j => do
     | .l2 => [("grads_gen", tensorJson (GradGen.fgrad false b.prm b.T b.x b.z b.coefs))]
     | .light => [("grads_gen", tensorJson (GradGen.fgrad true b.prm b.T b.x b.z b.coefs))]
     | _ => []
-  pure <| Json.mkObj (base ++ gen)
+  -- the three autograd kernels: values of the predictor through the regenerated `forward_func` closures, beside the model's
+  let us := b.x.map (applyT b.T)
+  let valsOf (kf : List Float → List Float → Float) : Json :=
+    toJson (b.coefs.map fun c => b.z.map fun z => floatToBits (fval kf c us (applyT b.T z)))
+  let fwd := match b.kind with
+    | .prod => [("fval_gen", valsOf (FwdGen.kProd b.prm)), ("fval_model", valsOf (kval .prod b.prm))]
+    | .lpq => [("fval_gen", valsOf (FwdGen.kLpq b.prm)), ("fval_model", valsOf (kval .lpq b.prm))]
+    | .sumPower => [("fval_gen", valsOf (FwdGen.kSumPower b.prm)), ("fval_model", valsOf (kval .sumPower b.prm))]
+    | _ => []
+  pure <| Json.mkObj (base ++ gen ++ fwd)
 
 /-- Values `f_l(z_j)` of the (unmasked) closed-form predictor: `(f, n_z)`. -/
 def opFval : Handler := fun j => do
